@@ -42,6 +42,23 @@ CLAIMED["C14"] = dict(
          "'encoder and decoder round-trip the object' is not decided here.",
     technique="static analysis: term-template matching against RFC formulas + abstract interpretation with entry case split")
 
+CLAIMED["C13"] = dict(
+    cat="proof", ref="DESIGN.md §3 C13",
+    text="Bit-provenance evaluation of all six (de)serialisers over their MIR terms: each output bit of serialize and each field bit "
+         "of deserialize is exactly the bit the RFC 6330 layout prescribes, for every input; packet = 4 payload-id bytes then the "
+         "symbol; ESI < 2^24 is enforced at every construction site. Round trips follow by composing the exact bit maps.",
+    note="Layout tables are transcribed from RFC 6330 3.2/3.3.2/3.3.3 into sa/rules/c13.py; trusts rustc MIR and sa/bits.py.",
+    technique="static analysis: bit-level provenance domain over MIR def-use terms")
+CLAIMED["C04"] = dict(
+    cat="other", ref="DESIGN.md §3 C04",
+    text="Decides that every formula and constant shared by encoder and decoder is the RFC's (where round-trip tests are blind): "
+         "Rand, Deg, Tuple templates; Enc index sequence of both siblings, LDPC rows of both generators and the HDPC recursion "
+         "compared as loop/emission summaries with reference renderings of the RFC pseudo-code compiled by the same driver; "
+         "ESI/ISI arithmetic on both sides; pinned fingerprints of V0..V3/Table 2/P1. Does not decide that C is the unique solution.",
+    note="Reference renderings live in /verif/fixtures/rfcref (never executed). V0..V3/Table 2 fingerprints are a regression oracle "
+         "taken from the pinned tree (no independent RFC copy in the sandbox).",
+    technique="static analysis: term-template matching and loop-summary comparison against RFC reference code over rustc MIR")
+
 NOT_APPLICABLE = {
     "C03": "probability over random erasure patterns; no clause of it is visible in the shape of the code",
     "C06": "invertibility of 477 concrete matrices and plan-replay equality are run-time linear algebra; no sound structural proxy",
